@@ -32,15 +32,18 @@ func pkgOfFunc(V *Verifier, fn string) (pkgPath, typ string) {
 	}
 	parts := strings.SplitN(fn, ".", 3)
 	name := parts[0]
-	for path, p := range V.pkgs {
-		if V.inRepo(path) && p.Pkg.Name() == name {
-			pkgPath = path
-		}
-	}
 	if len(parts) > 1 {
 		typ = parts[1]
 		if i := strings.IndexAny(typ, "[/"); i >= 0 {
 			typ = typ[:i]
+		}
+	}
+	for path, p := range V.pkgs {
+		if V.inRepo(path) && p.Pkg.Name() == name {
+			// several directories may share a package name: prefer the one that declares the type / function
+			if pkgPath == "" || p.Members[typ] != nil || strings.HasSuffix(path, "/messages") && V.pkgs[pkgPath].Members[typ] == nil {
+				pkgPath = path
+			}
 		}
 	}
 	return
